@@ -38,6 +38,21 @@ Transportation1dSorter::Transportation1dSorter(
   for (auto p : snkSort) {
     snkOrder.push_back(p.second);
   }
+  // Sources with zero supply are not part of the sorted problem: give them
+  // the closest sink with non-zero demand
+  defaultSink.assign(u.size(), 0);
+  for (size_t i = 0; i < u.size(); ++i) {
+    bool found = false;
+    long long bestDist = 0;
+    for (int j : snkOrder) {
+      long long dist = std::abs(u[i] - v[j]);
+      if (!found || dist < bestDist) {
+        found = true;
+        bestDist = dist;
+        defaultSink[i] = j;
+      }
+    }
+  }
 }
 
 Transportation1dSolver Transportation1dSorter::convert(
@@ -71,8 +86,7 @@ Transportation1dSorter::Solution Transportation1dSorter::convertSolutionBack(
 
 std::vector<int> Transportation1dSorter::convertAssignmentBack(
     const std::vector<int> &a) const {
-  std::vector<int> ret;
-  ret.resize(a.size());
+  std::vector<int> ret = defaultSink;
   for (size_t i = 0; i < a.size(); ++i) {
     ret[srcOrder[i]] = snkOrder[a[i]];
   }
